@@ -339,6 +339,24 @@ func (r *Run) opHostile(op *Op) {
 		sub.K = "copy"
 		hdr := [][2]string{{"X-Amz-Copy-Source", "/" + op.SrcB + "/" + url.QueryEscape(op.SrcKey)}}
 		resp = r.send(&simnetRequest{Method: "PUT", Target: target(op.B, op.Key, nil), Headers: hdr}, op.Faults, r.frag(op))
+	case "copyfrom":
+		// the hostile key is the source; the addressed key is a plain one
+		hdr := [][2]string{{"X-Amz-Copy-Source", "/" + op.SrcB + "/" + url.QueryEscape(op.SrcKey)}}
+		resp = r.send(&simnetRequest{Method: "PUT", Target: target(op.B, op.Key, nil), Headers: hdr}, op.Faults, r.frag(op))
+		src := liveOf(r.M, op.SrcB, op.SrcKey)
+		r.stats.Routes["hostile:copyfrom:"+keyClass(op.SrcKey)]++
+		switch {
+		case r.M.Buckets[op.B] == nil || r.M.Buckets[op.SrcB] == nil:
+			// one of the two buckets has been deleted earlier in the run
+		case resp.OK() && src == nil:
+			r.fail("frame.others", fmt.Sprintf("a copy whose source is an absent %s key succeeds: it read some other object %s", keyClass(op.SrcKey), r.bctx()), "404", resp.String())
+		case resp.OK():
+			if g := r.quiet("GET", target(op.B, op.Key, nil)); g.Status != 200 || md5hex(g.Body) != src.MD5 {
+				r.fail("frame.others", fmt.Sprintf("a copy whose source is a %s key does not store that object's bytes %s", keyClass(op.SrcKey), r.bctx()), src.MD5, g.String()+" "+md5hex(g.Body))
+			}
+		case src != nil && !r.me().faulted && (resp.Status == 404 || resp.Status >= 500):
+			r.fail("frame.others", fmt.Sprintf("a copy whose source is a stored %s key answers as if it were absent %s", keyClass(op.SrcKey), r.bctx()), "200", resp.String())
+		}
 	case "delmulti":
 		var x bytes.Buffer
 		x.WriteString("<Delete><Object><Key>")
@@ -399,7 +417,7 @@ func (r *Run) opHostile(op *Op) {
 	if d := diffSnap(before, after, except...); d != "" {
 		r.fail("frame.others", fmt.Sprintf("%s on a %s key changes something other than the addressed key: %s %s", op.Sub, keyClass(op.Key), snapSig(d), r.bctx()), "only "+op.B+"/"+strconv.Quote(op.Key)+" may change", d)
 	}
-	if !resp.OK() && (op.Sub == "put" || op.Sub == "copy") {
+	if !resp.OK() && (op.Sub == "put" || op.Sub == "copy" || op.Sub == "copyfrom") {
 		// a refused upload leaves nothing behind, not even in its own bucket
 		if bb, ba := before.Buckets[op.B], after.Buckets[op.B]; bb != nil && ba != nil && bb.Grouped != ba.Grouped && !r.me().faulted {
 			r.fail("frame.others", fmt.Sprintf("a refused %s on a %s key changes the bucket's delimited listing %s", op.Sub, keyClass(op.Key), r.bctx()), bb.Grouped, ba.Grouped)
@@ -525,6 +543,8 @@ func keyClass(k string) string {
 		return "backslash"
 	case strings.Contains(k, "%"):
 		return "percent"
+	case strings.ContainsAny(k, "?#&"):
+		return "subresource-like"
 	case strings.HasPrefix(k, ".") || strings.Contains(k, "/."):
 		return "leading-dot"
 	case len(k) > 255:
